@@ -87,6 +87,10 @@ func (gn *gen) label(s string) { gn.lab[s] = true }
 
 func (gn *gen) blob(data []byte) string {
 	alg := "sha256"
+	if gn.opt.Sha512 && rapid.IntRange(0, 5).Draw(gn.t, "blob_alg") == 0 {
+		alg = "sha512"
+		gn.label("sha512-blob")
+	}
 	d := rm.Digest(alg, data)
 	if _, ok := gn.g.Blobs[d]; !ok {
 		gn.g.Blobs[d] = &Blob{Digest: d, Data: data}
@@ -235,7 +239,12 @@ func configJSON(arch, osn string, nLayers int, seed int) []byte {
 func (gn *gen) add(n *Node) int {
 	n.ID = len(gn.g.Nodes)
 	if n.Digest == "" {
-		n.Digest = rm.ManifestDigest("sha256", n.MediaType, n.Body)
+		alg := "sha256"
+		if gn.opt.Sha512 && n.Kind != "schema1" && rapid.IntRange(0, 5).Draw(gn.t, "manifest_alg") == 0 {
+			alg = "sha512"
+			gn.label("sha512-manifest")
+		}
+		n.Digest = rm.ManifestDigest(alg, n.MediaType, n.Body)
 	}
 	// identical manifests collapse to one node
 	for _, o := range gn.g.Nodes {
@@ -534,6 +543,9 @@ func Gen(t *rapid.T, opt Options) *Graph {
 		nd := rapid.IntRange(1, 2).Draw(t, "ndt")
 		for i := 0; i < nd; i++ {
 			tgt := g.Nodes[rapid.SampledFrom(closure).Draw(t, fmt.Sprintf("dtsubj%d", i))]
+			if rm.AlgOf(tgt.Digest) != "sha256" {
+				continue // "<alg>-<hex>.suffix" of a sha512 digest exceeds the length of a tag
+			}
 			id := gn.image(fmt.Sprintf("dt%d", i), "")
 			suffix := rapid.SampledFrom([]string{".sig", ".att", ".sbom"}).Draw(t, fmt.Sprintf("dtsuf%d", i))
 			g.Tags[strings.Replace(tgt.Digest, ":", "-", 1)+suffix] = id
@@ -633,7 +645,7 @@ func (g *Graph) PutRegistry(h *rm.Host, repo string, fallbackReferrers bool, kee
 		for subj, body := range g.FallbackIndexes() {
 			d := rm.Digest("sha256", body)
 			r.Manifests[d] = &rm.Manifest{MediaType: rm.MTOCIIndex, Body: body}
-			r.Tags[strings.Replace(subj, ":", "-", 1)] = d
+			r.Tags[rm.FallbackTag(subj)] = d
 		}
 	}
 }
@@ -763,7 +775,7 @@ func (g *Graph) PutLayout(dir string, st LayoutStyle, keep func(digest string) b
 		if err := write(d, body); err != nil {
 			return err
 		}
-		ann := map[string]string{"org.opencontainers.image.ref.name": strings.Replace(subj, ":", "-", 1)}
+		ann := map[string]string{"org.opencontainers.image.ref.name": rm.FallbackTag(subj)}
 		entries = append(entries, fmt.Sprintf(`{"mediaType":%s,"digest":%s,"size":%d,"annotations":%s}`, jstr(rm.MTOCIIndex), jstr(d), len(body), mapJSON(ann)))
 	}
 	for _, x := range st.Extra {
